@@ -282,7 +282,7 @@ class Check:
                     continue
                 nat = run_native(tw, p, timeout=60)
                 good = (nat["rc"] == 0 and nat["reach"] == sm.get("reached", []) and
-                        (sm.get("out_sha") is None or not getattr(spec, "VALIDATE_OUT_SHA", True) or nat["out_sha"] == sm["out_sha"]))
+                        (sm.get("out_sha") is None or not getattr(spec, "VALIDATE_OUT_SHA", True) or job.get("stubs") or nat["out_sha"] == sm["out_sha"]))
                 if good:
                     validated += 1
                 elif nat.get("assume_fail"):
